@@ -18,7 +18,7 @@ MODULE = "Model.ClientRun"
 PID = "C08"
 THEOREMS = ["C08_reachable_wf", "C08_decoded_keys_unique", "C08_merge_exact", "C08_merge_frame", "C08_merge_brokers_frame",
             "C08_full_refresh_closes", "C08_invalidate", "C08_invalidate_coordinator_request",
-            "C08_coordinator_failed_send_keeps_cache", "C08_reresolve", "C08_cached_no_request",
+            "C08_coordinator_failed_send_keeps_cache", "C08_reresolve", "C08_cached_no_request", "C08_lookups_ask",
             "C08_recovery_partial", "C08_recovery_routes_all_partial", "C08_stale_never_grows", "C08_fresh_iff_no_stale",
             "C08_next_connect_address", "C08_live_connection_kept"]
 
@@ -123,10 +123,11 @@ def run(ck):
                       "Failover scenarios end with three retries after the last fault. A history is non-trivial if at least one metadata "
                       "response was merged and one request reached the fan-out; distinct = distinct canonical case lines.")
     ck.assumptions += [
-        "hand-written Gallina models Model/ClientMeta.v, Model/ClientRoute.v stand for afkak/client.py:274-332,368-392,468-527,529-569,586-650,652-808 (produce/offset/offset_fetch/offset_commit),862-917,956-1020,1100-1394 (tie = this run's differential correspondence, not proof)",
+        "hand-written Gallina models Model/ClientMeta.v, Model/ClientRoute.v stand for afkak/client.py reset_*, close, load_metadata_for_topics, _merge_topic_metadata, load_coordinator_for_group, send_{produce,fetch,offset,offset_fetch,offset_commit}_request, _handle_responses, _get_brokerclient, _update_brokers, resolution and the request senders (tie = this run's differential correspondence, not proof)",
         "one client operation at a time: overlapping operations, _coordinator_fetches sharing, request time-outs as such (C11) and close() during a fan-out (C20) are outside the model; a time-out is one way of 'the request failed'",
         "the reconnect loop of a broker client whose connect is refused or unanswered (brokerclient.py:414-461) is environment: the driver lets the connection come up after the request was given up and, at an address where no broker listens, resets it at once (reported to the model as a connection loss)",
-        "partition_meta, replicas/isr and the partition error code are not modelled (nothing in the property reads them); send_fetch_request is not driven (same _send_broker_aware_request/_handle_responses path as the four APIs that are)",
+        "partition_meta, replicas/isr and the partition error code are not modelled (nothing in the property reads them); the client is built with enable_protocol_version_discovery=False and the default disconnect_on_timeout",
+        "a failed send through _send_request_to_coordinator does not invalidate the cached coordinator (C08_coordinator_failed_send_keeps_cache: documented deviation, compensated by _group.py rejoin_after_error)",
         "C08_recovery_partial is the bounded-progress form: at most one failed attempt per stale topic after the last fault, provided the metadata request is answered truthfully by some broker or bootstrap host; the Producer/Consumer retry loops are not part of this model (the failover monitor retries the client call itself)",
         "the network side (request parser / response encoder in harness/props/client_lib.py) was written from the Kafka protocol guide, not from afkak's codec",
         "close() called while a lookup of the running operation is pending: client.py:383-389 fail the pending request synchronously, the operation's continuation runs inside close() and reads the cache BEFORE reset_all_metadata() (391); the model does the same (ClientMeta.close_early during the operation, close_finish after it)",
